@@ -180,31 +180,41 @@ type c25Frame struct {
 }
 
 type c25Variant struct {
-	base  int64 // number of block 0
-	scale int64 // block size
-	delay unscaledAckDelay
-	ecn   ecnCounts
+	base   int64   // number of block 0
+	widths []int64 // block i holds widths[i%len] consecutive numbers
+	delay  unscaledAckDelay
+	ecn    ecnCounts
 }
 
 var c25Variants = []c25Variant{
-	{0, 1, 0, ecnCounts{}},
-	{61, 1, 100, ecnCounts{}},                   // largest acknowledged on both sides of the 1/2-byte varint boundary
-	{0, 70, 3, ecnCounts{}},                     // 2-byte gaps and range lengths
-	{16380, 1, 0, ecnCounts{t0: 1, t1: 0, ce: 70}}, // ECN counts follow the ranges
+	{0, []int64{1}, 0, ecnCounts{}},
+	{61, []int64{1}, 100, ecnCounts{}},                      // largest acknowledged on both sides of the 1/2-byte varint boundary
+	{0, []int64{70}, 3, ecnCounts{}},                        // 2-byte gaps and range lengths
+	{16380, []int64{1}, 0, ecnCounts{t0: 1, t1: 0, ce: 70}}, // ECN counts follow the ranges
+	{0, []int64{1, 70, 1, 1, 70}, 0, ecnCounts{}},           // 1- and 2-byte gaps and lengths mixed: a lower range can fit where a higher one does not
+}
+
+// c25Block returns the numbers [start,end) of block i.
+func c25Block(v c25Variant, i int) (start, end int64) {
+	start = v.base
+	for j := 0; j < i; j++ {
+		start += v.widths[j%len(v.widths)]
+	}
+	return start, start + v.widths[i%len(v.widths)]
 }
 
 func c25Contains(x c25Frame, v c25Variant, n packetNumber) bool {
-	d := int64(n) - v.base
-	if d < 0 {
-		return false
+	for i := 0; i < 32; i++ {
+		if s, e := c25Block(v, i); int64(n) >= s && int64(n) < e {
+			return x.Mask&(1<<uint(i)) != 0
+		}
 	}
-	b := d / v.scale
-	return b < 32 && x.Mask&(1<<uint(b)) != 0
+	return false
 }
 
 func c25PartB(c *vx.Ctx) {
 	bitsN := vx.Pick(c, 12, 16)
-	c.Rule(fmt.Sprintf("part ackframe: every non-empty set of blocks over %d positions (all range sets of <= %d ranges) x every remaining packet space 3..40 bytes x 4 variants (numbers from 0; from 61; 70-number blocks; from 16380 with ECN counts) through packetWriter.appendAckFrame; an emitted frame must fit the space, parse back completely with consumeAckFrame, start with the highest range exactly and contain no number outside the set; a refused frame must leave the packet untouched. Non-trivial = frame emitted and parsed back.", bitsN, (bitsN+1)/2))
+	c.Rule(fmt.Sprintf("part ackframe: every non-empty set of blocks over %d positions (all range sets of <= %d ranges) x every remaining packet space 3..40 bytes x 5 variants (numbers from 0; from 61; 70-number blocks; from 16380 with ECN counts; blocks of 1 and 70 numbers mixed) through packetWriter.appendAckFrame; an emitted frame must fit the space, parse back completely with consumeAckFrame, start with the highest range exactly and contain no number outside the set; a refused frame must leave the packet untouched. Non-trivial = frame emitted and parsed back.", bitsN, (bitsN+1)/2))
 	vx.Enumerate(c, "ackframe", vx.Opts{NoSample: false}, func(yield func(c25Frame) bool) {
 		for v := range c25Variants {
 			for m := uint32(1); m < 1<<uint(bitsN); m++ {
@@ -223,7 +233,8 @@ func c25PartB(c *vx.Ctx) {
 			if x.Mask&(1<<uint(i)) == 0 {
 				continue
 			}
-			s, e := packetNumber(v.base+int64(i)*v.scale), packetNumber(v.base+int64(i+1)*v.scale)
+			bs, be := c25Block(v, i)
+			s, e := packetNumber(bs), packetNumber(be)
 			if n := len(seen); n > 0 && seen[n-1].end == s {
 				seen[n-1].end = e
 			} else {
